@@ -38,13 +38,6 @@ def addAtPure (l : List Nat) (i v : Nat) : List Nat :=
 
 /-! ## Registry views -/
 
-/-- `get_active_validator_indices` on a bare registry -/
-def active_indices_of (vals : List Validator) (epoch : Nat) : List Nat :=
-  (List.range vals.length).filter fun i =>
-    match vals[i]? with
-    | some v => is_active_validator v epoch
-    | none => false
-
 /-- `get_eligible_validator_indices` on a bare registry -/
 def eligible_indices_of (vals : List Validator) (previous_epoch : Nat) : List Nat :=
   (List.range vals.length).filter fun i =>
@@ -205,5 +198,29 @@ def process_participation_flag_updates_pure (n : Nat) (current_epoch_participati
 def process_participation_record_updates_pure (current_epoch_attestations : List PendingAttestation) :
     List PendingAttestation × List PendingAttestation :=
   (current_epoch_attestations, [])
+
+/-! ## Sync committee selection (altair+) -/
+
+/-- The `while` loop of `get_next_sync_committee_indices` from counter `i` with the members found so far, on `fuel`
+iterations (`none`: not finished). `shuffled i` stands for `compute_shuffled_index(i % n, n, seed)`. -/
+def sync_committee_indices_loop (cfg : Config) (vals : List Validator) (active : List Nat) (seed : Bytes)
+    (shuffled : Nat → Nat) : Nat → Nat → List Nat → Option (List Nat)
+  | 0, _, acc => if acc.length ≥ cfg.SYNC_COMMITTEE_SIZE then some acc else none
+  | fuel + 1, i, acc =>
+    if acc.length ≥ cfg.SYNC_COMMITTEE_SIZE then some acc else
+    let MAX_RANDOM_BYTE := 2 ^ 8 - 1
+    let shuffled_index := shuffled i
+    let candidate_index := active.getD shuffled_index 0
+    let random_byte := ((hash (seed ++ uintToBytes 8 (i / 32))).get! (i % 32)).toNat
+    let effective_balance := eff_of vals candidate_index
+    let acc := if effective_balance * MAX_RANDOM_BYTE ≥ cfg.MAX_EFFECTIVE_BALANCE * random_byte
+      then acc ++ [candidate_index] else acc
+    sync_committee_indices_loop cfg vals active seed shuffled fuel (i + 1) acc
+
+/-- `process_sync_committee_updates` on the two committees: rotate at a period boundary -/
+def process_sync_committee_updates_pure (cfg : Config) (current_epoch : Nat) (current next computed : Option SyncCommittee) :
+    Option SyncCommittee × Option SyncCommittee :=
+  let next_epoch := current_epoch + 1
+  if next_epoch % cfg.EPOCHS_PER_SYNC_COMMITTEE_PERIOD = 0 then (next, computed) else (current, next)
 
 end Zrnt.Beacon.Spec
